@@ -232,6 +232,17 @@ func (w *World) opTplRender(dst *Doc, op sim.Op, o *Obs) {
 			w.Extra["shared-tdata"] = lib
 		}
 	}
+	if op.Int(5) == 1 {
+		// read fault: the picture files of this render are not there when the engine wants them (removed after the data object
+		// was filled); the render may fail - a later render that finds its file must not be affected
+		if ents, e := os.ReadDir(filepath.Join(w.Tmp, "tplimg")); e == nil {
+			for _, ent := range ents {
+				if os.Remove(filepath.Join(w.Tmp, "tplimg", ent.Name())) == nil {
+					w.Stats.Fault("R-missing-file")
+				}
+			}
+		}
+	}
 	var d *document.Document
 	var err error
 	if op.Int(1) == 0 {
